@@ -94,8 +94,6 @@ BNOTES = {
     "B15/12": "kept, same class as B01/9: the `match` around `rio_format_triples` and both `finish()` calls moved into a private helper function "
               "(`close_document`); R15.14 and C18's pairing rule are intra-procedural and fail closed (the formatter's `finish` is no longer in the function that "
               "feeds it)",
-    "B14/11": "kept, same class as B01/9: the recursion of `cmp_bindings_with` on the rest of the criteria rewritten as a `for` loop with an early return; R14.1 reads the "
-              "audited recursive shape (`o.then_with(|| cmp_bindings_with(.., rest, ..))`) with a loop-free path enumerator and fails closed on the loop form",
     "B14/15": "kept: the four lexical forms of xsd:boolean compared with `==` on `&str` instead of a string-pattern `match`; rustc promotes `&\"true\"` to a `&&str` constant, "
               "which the fact extractor does not decode (kind `ptr`), so R14.4 cannot read the constants and fails closed - a limitation of E1, not of the rule",
     "B06/11": "kept, same class as B01/9: the fixed escapes of `_cnq::nq` moved into a private helper function (`fixed_escape`); R6.1 evaluates the escaping decision of "
